@@ -99,7 +99,7 @@ func init() {
 			c(false, true, true, "sub,unsub", "pub"), c(false, false, false, "nsub", "pub", "nunsub"), c(true, false, true, "unsub,sub", "pub"), c(false, true, false, "sub,unsub", "pub", "ojoin"),
 		}})
 	connopsRegister(connopsSet{prop: "C07", qBound: 1, tBound: 2,
-		doc: "observer's join/leave pushes for A alternate join,leave,...; a still-subscribed A ends with join, otherwise with leave or nothing; number of leaves equals the number of unsubscribe callbacks; joins never exceed successful subscribe replies/pushes",
+		doc: "observer's join/leave pushes for A alternate join,leave,...; a still-subscribed A ends with join, otherwise with leave or nothing; number of leaves equals the number of unsubscribe callbacks; number of joins equals the number of established subscriptions (ended + still open)",
 		quick: []connopsCfg{
 			c(false, true, false, "sub,unsub"), c(false, true, false, "sub", "disc"), c(false, false, false, "sub", "ndisc"), c(false, false, false, "nsub", "disc"),
 			c(false, false, false, "nsub", "nunsub"), c(false, true, false, "sub,close"), c(true, false, false, "unsub,sub", "disc"),
@@ -288,15 +288,16 @@ func connopsBody(cfg connopsCfg, prop string) func() {
 			}
 		case "C10":
 			open := false
+			everOpen := false
 			for _, f := range act.t.frames {
 				r := f.Reply
 				switch {
 				case r.Subscribe != nil && r.Error == nil:
-					open = true
+					open, everOpen = true, true
 				case r.Unsubscribe != nil && r.Error == nil:
 					open = false
 				case r.Push != nil && r.Push.Channel == ch && r.Push.Subscribe != nil:
-					open = true
+					open, everOpen = true, true
 				case r.Push != nil && r.Push.Channel == ch && r.Push.Unsubscribe != nil:
 					open = false
 				case r.Push != nil && r.Push.Channel == ch && (r.Push.Pub != nil || r.Push.Join != nil || r.Push.Leave != nil):
@@ -311,7 +312,11 @@ func connopsBody(cfg connopsCfg, prop string) func() {
 						if cfg.positioned {
 							pos = "positioned"
 						}
-						vsched.Failf("push-outside-bracket:"+kind+":"+pos, "%s push for %s outside a subscription bracket: %s", kind, ch, all)
+						when := "before-open"
+						if everOpen {
+							when = "after-close"
+						}
+						vsched.Failf("push-outside-bracket:"+kind+":"+pos+":"+when+":"+strings.Split(connopsCtx(cfg), ":")[0], "%s push for %s outside a subscription bracket (%s): %s", kind, ch, when, all)
 					}
 				}
 			}
@@ -326,23 +331,23 @@ func connopsBody(cfg connopsCfg, prop string) func() {
 				if p.Join != nil && p.Join.Info.GetClient() == actorID {
 					joins++
 					if state == 1 {
-						vsched.Failf("double-join", "observer saw two joins of A without a leave in between")
+						vsched.Failf("double-join:"+connopsCtx(cfg), "observer saw two joins of A without a leave in between")
 					}
 					state = 1
 				}
 				if p.Leave != nil && p.Leave.Info.GetClient() == actorID {
 					leaves++
 					if state == 0 {
-						vsched.Failf("leave-before-join", "observer saw a leave of A without a preceding join")
+						vsched.Failf("leave-before-join:"+connopsCtx(cfg), "observer saw a leave of A without a preceding join")
 					}
 					state = 0
 				}
 			}
 			if subscribed && state != 1 {
-				vsched.Failf("missing-join", "A is subscribed but the observer's last event for it is not a join (joins=%d leaves=%d)", joins, leaves)
+				vsched.Failf("missing-join:"+connopsCtx(cfg), "A is subscribed but the observer's last event for it is not a join (joins=%d leaves=%d)", joins, leaves)
 			}
 			if !subscribed && state != 0 {
-				vsched.Failf("missing-leave", "A is not subscribed (closed=%v) but the observer's last event for it is a join (joins=%d leaves=%d)", closed, joins, leaves)
+				vsched.Failf("missing-leave:"+connopsCtx(cfg), "A is not subscribed (closed=%v) but the observer's last event for it is a join (joins=%d leaves=%d)", closed, joins, leaves)
 			}
 			unsubCB := 0
 			for _, e := range events {
@@ -351,19 +356,10 @@ func connopsBody(cfg connopsCfg, prop string) func() {
 				}
 			}
 			if leaves != unsubCB {
-				vsched.Failf("leave-count", "observer saw %d leaves of A but %d subscriptions of A ended (unsubscribe callbacks): %v", leaves, unsubCB, events)
+				vsched.Failf("leave-count:"+connopsCtx(cfg), "observer saw %d leaves of A but %d subscriptions of A ended (unsubscribe callbacks): %v", leaves, unsubCB, events)
 			}
-			okReplies := 0
-			for _, f := range act.t.frames {
-				if f.Reply.Subscribe != nil && f.Reply.Error == nil || f.Reply.Push != nil && f.Reply.Push.Subscribe != nil {
-					okReplies++
-				}
-			}
-			if cfg.presub {
-				// the pre-subscription's join happened before the observation window; it is in the log too
-			}
-			if joins > okReplies {
-				vsched.Failf("join-for-failed-subscribe", "observer saw %d joins of A but only %d subscribe attempts succeeded: %s", joins, okReplies, all)
+			if established := unsubCB + boolInt(subscribed); joins != established {
+				vsched.Failf("join-count:"+connopsCtx(cfg), "observer saw %d joins of A but %d subscriptions of A were established (ended %d, still subscribed %v): %v | %s", joins, established, unsubCB, subscribed, events, all)
 			}
 		case "C06":
 			res, err := n.Presence(ch)
@@ -508,6 +504,61 @@ func connopsStep(op string, cfg connopsCfg, n *Node, act *vClient, publish func(
 	default:
 		panic("unknown op " + op)
 	}
+}
+
+// connopsCtx names the subscription path and the racing operations of a scenario, so that a
+// signature identifies the call sites involved (client-side vs server-side subscribe etc.).
+func connopsCtx(cfg connopsCfg) string {
+	path := "none"
+	var racers []string
+	seen := map[string]bool{}
+	for _, op := range cfg.ops {
+		for _, st := range strings.Split(op, ",") {
+			switch st {
+			case "sub":
+				if path == "none" {
+					path = "client-side"
+				} else if path == "server-side" {
+					path = "both"
+				}
+			case "nsub":
+				if path == "none" {
+					path = "server-side"
+				} else if path == "client-side" {
+					path = "both"
+				}
+			default:
+				if !seen[st] {
+					seen[st] = true
+					racers = append(racers, st)
+				}
+			}
+		}
+	}
+	if path == "none" && cfg.presub {
+		path = "client-side"
+	}
+	// racer class: which kind of operation races the subscribe (exact op names and the
+	// callback mode are left out so that one root cause has one signature)
+	closeRacer, unsubRacer := false, false
+	for _, r := range racers {
+		switch r {
+		case "disc", "ndisc", "close":
+			closeRacer = true
+		case "unsub", "nunsub":
+			unsubRacer = true
+		}
+	}
+	class := "none"
+	switch {
+	case closeRacer && unsubRacer:
+		class = "close+unsubscribe"
+	case closeRacer:
+		class = "close"
+	case unsubRacer:
+		class = "unsubscribe"
+	}
+	return path + ":" + class
 }
 
 func boolInt(b bool) int {
